@@ -1,6 +1,7 @@
 """Translator validation: the gcc-built generated C and the natively built real wrapper (g++ and clang++) are run
 on the same input vectors through ctypes; every output byte, the return value and the exception id must agree
 (floating-point values: same bits or both NaN).  Any mismatch is a tool failure, never a VIOLATION."""
+import os, sys
 import ctypes, random, struct, math
 from .common import *
 from .ll2c import IntTy, FloatTy, PtrTy, VoidTy, NamedTy, StructTy, ArrTy
@@ -55,7 +56,7 @@ def validate(chk, unit, hp, bp, funcs=None, nvec=400, bufsizes=None, skip=(), co
             elif isinstance(rt, PtrTy):
                 pt = L.res(rt.to)
                 if isinstance(pt, (IntTy, FloatTy)):
-                    nb = (bufsizes or {}).get(fn, {}).get(k, 64)
+                    nb = (bufsizes or {}).get(fn, {}).get(k, 256)      # room for a Matrix44<double> (128 bytes) and then some
                     es = L.sizeof(pt)
                     spec.append(('b', [(o, 'i' if isinstance(pt, IntTy) else 'f', es) for o in range(0, nb, es)], nb))
                 else:
@@ -82,6 +83,7 @@ def validate(chk, unit, hp, bp, funcs=None, nvec=400, bufsizes=None, skip=(), co
             getattr(lib, fn).restype = restype
             getattr(lib, fn).argtypes = [ctype_scalar(sp[1], sp[2], sp[3]) if sp[0] == 's' else ctypes.c_void_p for sp in spec]
         nf += 1
+        if os.environ.get('VERIF_TRACE'): sys.stderr.write('[natval] %s\n' % fn); sys.stderr.flush()
         for v in range(nvec):
             mode = v % 5
             scal = []; bufs = []
